@@ -589,8 +589,16 @@ func c07Exec(ops []string, prop string) vResult {
 				if s == nil || s.st == nil {
 					return "missing"
 				}
+				unreadBefore, sendBefore := s.st.recvBuf.Len(), s.st.sendBuf.Len()
 				s.st.ReleaseReadAndReuse()
 				c.tags["release-and-reuse"] = true
+				if unreadBefore > 0 {
+					c.tags["release-and-reuse-with-unread-bytes"] = true
+					// S (C15 / C06): bytes the application has not read yet are not turned into bytes it is about to send
+					if s.st.sendBuf.Len() != sendBefore || s.st.recvBuf.Len() != unreadBefore {
+						c.setFail("reuse-moves-unread-bytes", fmt.Sprintf("ReleaseReadAndReuse on stream %d with %d unread byte(s): afterwards the read buffer holds %d and the send buffer %d (before: %d) - the unread rest would go out with the next request, and reset() no longer sees it", id, unreadBefore, s.st.recvBuf.Len(), s.st.sendBuf.Len(), sendBefore))
+					}
+				}
 				return "ok" + c.suffix(x, id)
 			case f[0] == "pool" && (len(f) == 2 || len(f) == 3) && c.pool == nil:
 				c.pool = newStreamPool(uint32(vAtoi(f[1])))
@@ -930,6 +938,12 @@ func c15Gen(r *rand.Rand) []string {
 			}
 		case k < 19:
 			ops = append(ops, fmt.Sprintf("rb b %d %d", id(), 1+r.Intn(caps[0])))
+			if r.Intn(3) == 0 {
+				// the caller gives a stream back with part of an answer unread, after the public ReleaseReadAndReuse
+				j := id()
+				ops = append(ops, fmt.Sprintf("wb b %d %s", j, c06RandBytes(r, 3+r.Intn(caps[0]-2), &seq)), fmt.Sprintf("flush b %d", j), "deliver a",
+					fmt.Sprintf("rb a %d 1", j), fmt.Sprintf("reuse a %d", j), fmt.Sprintf("pput %d", j), "pget")
+			}
 		default:
 			ops = append(ops, fmt.Sprintf("take %d %d", r.Intn(len(caps)), 1+r.Intn(4)))
 		}
